@@ -206,6 +206,32 @@ def run_property(prop, tier="quick", seed=0, explain=None):
             raise
         except Exception as e:
             ctx.note("view %s failed: %s: %s" % (view, type(e).__name__, str(e)[:200]))
+    # Last resort: the tree as a whole is function-for-function identical (after the compiler's own normalisation) to
+    # the tree the rules were reviewed on — engine/equiv.py.  Then nothing observable changed and a failing pattern
+    # match is a false alarm of ours.  Costs a second compiler pass, so only consulted when something fails.
+    failing = [o for o in ctx.obligations if not o.ok and vkey(prop, o) not in known_keys]
+    if failing:
+        try:
+            from . import equiv
+            for cfg in sorted({o.cfg for o in failing if o.cfg}):
+                res = equiv.compare(cfg)
+                if res.get("equivalent"):
+                    n = 0
+                    for o in failing:
+                        if o.cfg == cfg:
+                            o.ok = True
+                            o.what += "  [tree is function-for-function identical to the reviewed tree: %d optimised bodies compared]" % res["compared"]
+                            n += 1
+                    ctx.note("config %s: %d failing obligation(s) discharged by equivalence with the reviewed tree (%d functions, all declarations identical)"
+                             % (cfg, n, res["compared"]))
+                else:
+                    ctx.note("config %s: not equivalent to the reviewed tree (%d functions differ, %d added, %d removed, %d declarations differ)"
+                             % (cfg, len(res.get("changed", ())), len(res.get("added", ())), len(res.get("removed", ())),
+                                len(res.get("decl_changed", ())) + len(res.get("decl_added", ())) + len(res.get("decl_removed", ()))))
+        except build.BuildError:
+            raise
+        except Exception as e:
+            ctx.note("equivalence check failed: %s: %s" % (type(e).__name__, str(e)[:200]))
     viol = []
     knownhit = []
     seen = set()
